@@ -87,3 +87,14 @@ Definition decode_reencode (num_sequences : Z) (modes : Z) (source : list Z) : r
   let* (s2, seqs) := decode_sequences num_sequences (Some modes) source fse_scratch_new in
   let* again := reencode s2 seqs in
   ROk (seqs, drop_z bytes_read source, again).
+
+(** the compressor's Huffman literal stream for [data] given its (code, number of bits) table: the codes last symbol
+    first ([HuffmanEncoder::encode_stream]); executable counterpart of [huf_stream_bytes] in proofs/C13_Stream.v *)
+Definition huf_stream_model (codes : list (Z * nat)) (data : list Z) : list Z :=
+  stream_bytes (map (fun s => nth (Z.to_nat s) codes (0, O)) (rev data)).
+
+(** build the decoding table from a description and decode one stream that follows it *)
+Definition huf_describe_and_decode (encoded : list Z) : res (Z * list Z) :=
+  let* (t, used) := huf_build_decoder huf_new encoded in
+  let* out_rev := huf_decode_stream t (drop_z used encoded) [] true in
+  ROk (used, rev' out_rev).
